@@ -397,8 +397,8 @@ def strat_mxp(env, cfg):
             m = draw(g_modulus(W, max(1, min(maxd, 128 // W)), odd=True))
             a = draw(g_operand(W, m, nd(m, W) + 1))
             top = W * (SIZE - 1)
-            eb = draw(st.one_of(st.sampled_from([W * DIGS - 1, W * DIGS, W * DIGS + 1, top - 1, top]),
-                                st.integers(W * DIGS - 8, top)))
+            cand = [b for b in (W * DIGS - 1, W * DIGS, W * DIGS + 1, top - 1, top) if 2 <= b <= top]
+            eb = draw(st.one_of(st.sampled_from(cand), st.integers(max(2, min(W * DIGS, top) - 8), top)))
             e = draw(ints.uniform(1 << (eb - 1), (1 << eb) - 1))
             if draw(one_in(6)):
                 e = -e
